@@ -28,6 +28,199 @@ VALIDATE = ["if day_of_week is None:\n    day_of_week = self.day_of_week",
             "if day_of_week < WeekDay.MONDAY or day_of_week > WeekDay.SUNDAY:\n    raise ValueError('Invalid day of week')"]
 
 
+OCC: dict[tuple[str, str], bool | None] = {}
+
+
+def _month_shapes():
+    """one (year, month) per month shape: 28-31 days x 7 starting weekdays"""
+    import calendar
+    seen = {}
+    for y in range(2015, 2045):
+        for mo in range(1, 13):
+            first, n = calendar.monthrange(y, mo)
+            seen.setdefault((n, first), (y, mo))
+    return sorted(seen.values())
+
+
+def _occurrences(d0, d1, wd):
+    import datetime as _dt
+    out, d = [], d0
+    while d <= d1:
+        if wd is None or d.weekday() == wd:
+            out.append(d)
+        d += _dt.timedelta(days=1)
+    return out
+
+
+def _unit_bounds(d, unit):
+    import calendar
+    import datetime as _dt
+    if unit == "month":
+        return d.replace(day=1), d.replace(day=calendar.monthrange(d.year, d.month)[1])
+    if unit == "quarter":
+        q = (d.month - 1) // 3
+        return _dt.date(d.year, q * 3 + 1, 1), _dt.date(d.year, q * 3 + 3, calendar.monthrange(d.year, q * 3 + 3)[1])
+    return _dt.date(d.year, 1, 1), _dt.date(d.year, 12, 31)
+
+
+def _calendar_tabulate(ctx, cls: str) -> None:
+    """next / previous / first_of / last_of / nth_of decided on values: the methods (and every private helper they reach) are
+    run by the checker's interpreter in the closed calendar world of rules/calstub.py - real dates from the standard
+    library, the primitives set/add/start_of('day')/create with their established semantics - over every month shape
+    (28-31 days x 7 starting weekdays), every quarter of common and leap years, all weekdays, n up to past the end of the
+    unit, and, for DateTime, scenarios where the midnight of the starting day, of the target day or of a neighbouring day is
+    skipped or repeated, for both folds and an early / midday time of the instance.  The result must be the date the
+    property names (the checker's own count over datetime.date), at the first instant of that day (first occurrence when
+    repeated) unless keep_time, and nth_of must raise exactly when the unit holds fewer occurrences."""
+    import datetime as _dt
+    from ..rules import calstub, minieval
+    m = pmod(core.CLASS_HOME[cls])
+    extra = pmod("date").methods("Date") if cls == "DateTime" else None
+    DAY = _dt.timedelta(days=1)
+    is_dt = cls == "DateTime"
+    stats = {"n": 0}
+    deep = ctx.tier == "thorough"       # quick: every month shape and weekday, fewer n / years / instances; thorough: the full grid
+
+    def receivers(w, d):
+        if not is_dt:
+            return [("", w.date(d))]
+        out = []
+        for label, mins in (("12:00", 720), ("early", 90 if d in w.skipped else 30)):
+            for fold in (0, 1):
+                out.append((f"at {label} fold={fold}", w.datetime(d, mins, fold)))
+        return out
+
+    def verdict(w, got, want, keep=None, recv=None):
+        """'' when `got` is the value the property names"""
+        if not isinstance(got, minieval.Obj) or "_date" not in vars(got):
+            return f"returns {got!r}"
+        g = vars(got)
+        if g["_date"] != want:
+            return f"lands on {g['_date']} (expected {want})"
+        if not is_dt:
+            return ""
+        if keep:
+            return "" if g["_mins"] == vars(recv)["_mins"] else f"time of day {g['_mins'] // 60:02d}:{g['_mins'] % 60:02d} instead of the instance's"
+        sm, sf = w.sod(want)
+        if g["_mins"] != sm:
+            return f"at {g['_mins'] // 60:02d}:{g['_mins'] % 60:02d} instead of the start of the day ({sm // 60:02d}:00)"
+        if want in w.repeated and g["fold"] != 0:
+            return "second occurrence of the repeated start of the day"
+        return ""
+
+    def run(name, cases):
+        """cases: iterable of (label, world, receiver, args, expected date | 'raise', keep)"""
+        if name not in calstub.World(m, cls, extra=extra).meths:
+            return
+        bad, n = [], 0
+        try:
+            for label, w, recv, args, want, keep in cases:
+                n += 1
+                try:
+                    got = w.call(recv, name, args)
+                except minieval.Raised as e:
+                    if want != "raise":
+                        bad.append(f"{label}: raises {e.exc_name} (expected {want})")
+                    elif name == "nth_of" and e.exc_name != "PendulumException":
+                        bad.append(f"{label}: raises {e.exc_name} instead of PendulumException")
+                    elif name in ("next", "previous") and e.exc_name != "ValueError":
+                        bad.append(f"{label}: raises {e.exc_name} instead of ValueError")
+                    continue
+                if want == "raise":
+                    bad.append(f"{label}: returns {vars(got).get('_date') if isinstance(got, minieval.Obj) else got!r} (expected an exception)")
+                    continue
+                v = verdict(w, got, want, keep, recv)
+                if v:
+                    bad.append(f"{label}: {v}")
+        except calstub.ERRORS + (ValueError,) as e:
+            OCC[(cls, name)] = None
+            ctx.unverified("CALENDAR.tabulated", f"{cls}.{name}", f"outside the checker's interpreter: {type(e).__name__}: {e}", m.loc(m.func(f"{cls}.{name}")))
+            return
+        stats["n"] += n
+        OCC[(cls, name)] = not bad
+        ctx.ob("CALENDAR.tabulated", f"{cls}.{name}", not bad,
+               f"{n} (calendar shape, weekday, instance, zone scenario) cases evaluated: " + (f"wrong: {bad[:3]}" if bad else
+               "always the date the property names" + (", at the first instant of that day unless keep_time" if is_dt else "")), m.loc(m.func(f"{cls}.{name}")))
+
+    def worlds(dates, pairs=False):
+        """the plain zone, then one special date at a time (skipped / repeated first hour); for quarter and year units also the
+        first date (the instance's own day) repeated together with the target skipped, and the other way round - as in
+        America/Havana, whose clocks go back to 00:00 in November and skip 00:00 in March.  (Both within one month does not
+        occur in the tz database - triage probe over 1970-2037 - and is not part of the scenarios.)"""
+        yield "", calstub.World(m, cls, extra=extra)
+        if is_dt:
+            for d in dates:
+                yield f" [midnight of {d} skipped]", calstub.World(m, cls, skipped={d}, extra=extra)
+                yield f" [midnight of {d} repeated]", calstub.World(m, cls, repeated={d}, extra=extra)
+            for d in (dates[1:2] if pairs else []):
+                if d != dates[0] and (d.year, d.month) != (dates[0].year, dates[0].month):
+                    yield f" [midnight of {dates[0]} repeated, of {d} skipped]", calstub.World(m, cls, repeated={dates[0]}, skipped={d}, extra=extra)
+                    yield f" [midnight of {dates[0]} skipped, of {d} repeated]", calstub.World(m, cls, skipped={dates[0]}, repeated={d}, extra=extra)
+
+    def nav_cases(forward):
+        base = _dt.date(2021, 3, 8)     # a Monday
+        for off in range(7):
+            d = base + off * DAY
+            for wd in list(range(7)) + [None]:
+                target_wd = d.weekday() if wd is None else wd
+                dist = ((target_wd - d.weekday() - 1) % 7 + 1) if forward else ((d.weekday() - target_wd - 1) % 7 + 1)
+                want = d + dist * DAY if forward else d - dist * DAY
+                special = [d, want, want - DAY, want + DAY] if off in ((0, 3) if deep else (3,)) else []
+                for wl, w in worlds(special):
+                    for rl, recv in receivers(w, d):
+                        for keep in ((False, True) if is_dt else (None,)):
+                            if keep and (wl or "12:00" not in rl):
+                                continue        # keep_time: decided for a midday instance in the plain zone
+                            yield (f"{d} {rl} -> weekday {wd} keep_time={keep}{wl}", w, recv, [wd] + ([keep] if keep is not None else []), want, keep)
+
+    def invalid_cases():
+        w = calstub.World(m, cls, extra=extra)
+        for wd in (-1, 7):
+            for rl, recv in receivers(w, _dt.date(2021, 3, 10))[:1]:
+                yield (f"weekday {wd}", w, recv, [wd], "raise", None)
+
+    def occ_cases(which):
+        for y, mo in _month_shapes():
+            for day in ((1, 15) if deep else (1,)):
+                d = _dt.date(y, mo, day)
+                lo, hi = _unit_bounds(d, "month")
+                for wd in list(range(7)) + ([None] if which != "nth" else []):
+                    occ = _occurrences(lo, hi, wd)
+                    for nth in (((1, 2, 4, 5, 6) if deep else (1, 5, 6)) if which == "nth" else (None,)):
+                        if day == 15 and nth not in (None, 5):
+                            continue
+                        want = (occ[0] if which == "first" else occ[-1]) if nth is None else (occ[nth - 1] if nth <= len(occ) else "raise")
+                        special = [d, want] + ([want - DAY] if want != "raise" else []) if (wd in ((0, 6) if deep else (6,)) and day == 1 and want != "raise" and nth in (None, 1, 5)
+                                                                                            and (deep or mo % 3 == 0)) else []
+                        for wl, w in worlds([x for x in special if x != "raise"]):
+                            for rl, recv in receivers(w, d)[:(4 if wl else 1)]:
+                                args = ["month"] + ([nth] if nth is not None else []) + [wd]
+                                yield (f"{which}_of(month{'' if nth is None else ', ' + str(nth)}, {wd}) from {d} {rl}{wl}", w, recv, args, want, None)
+        for unit, years, nths in (("quarter", (2019, 2020) if deep else (2020,), (1, 2, 12, 13, 14, 15) if deep else (1, 13, 14)),
+                                  ("year", (2019, 2020, 2021, 2022, 2023, 2024, 2028) if deep else (2020, 2023), (1, 2, 52, 53, 54) if deep else (1, 52, 53, 54))):
+            for y in years:
+                for mo in ((2, 5, 8, 11) if unit == "quarter" else (7,)):
+                    d = _dt.date(y, mo, 17)
+                    lo, hi = _unit_bounds(d, unit)
+                    for wd in list(range(7)) + ([None] if which != "nth" else []):
+                        occ = _occurrences(lo, hi, wd)
+                        for nth in (nths if which == "nth" else (None,)):
+                            want = (occ[0] if which == "first" else occ[-1]) if nth is None else (occ[nth - 1] if nth <= len(occ) else "raise")
+                            special = [d, want, lo] if (wd in (2, None) and y == 2020 and want != "raise" and nth in (None, 1, 13, 53)) else []
+                            for wl, w in worlds(special, pairs=True):
+                                for rl, recv in receivers(w, d)[:(4 if wl else 1)]:
+                                    args = [unit] + ([nth] if nth is not None else []) + [wd]
+                                    yield (f"{which}_of({unit}{'' if nth is None else ', ' + str(nth)}, {wd}) from {d} {rl}{wl}", w, recv, args, want, None)
+
+    import itertools
+    run("next", itertools.chain(nav_cases(True), invalid_cases()))
+    run("previous", itertools.chain(nav_cases(False), invalid_cases()))
+    run("first_of", occ_cases("first"))
+    run("last_of", occ_cases("last"))
+    run("nth_of", occ_cases("nth"))
+    ctx.count(f"calendar_cases_{cls}", stats["n"])
+
+
 def _nav_tabulate(ctx, m, fn, cls: str, name: str) -> bool | None:
     """next()/previous() decided on values: the method body is run by the checker's interpreter on stub dates (weekday,
     day counter, 'is the start of its day' flag; add/subtract/start_of are stub methods) for every start weekday x target
@@ -89,7 +282,7 @@ def _nav(ctx) -> None:
         m = pmod(core.CLASS_HOME[cls])
         for name, step in (("next", "add"), ("previous", "subtract")):
             fn = m.func(f"{cls}.{name}")
-            if _nav_tabulate(ctx, m, fn, cls, name):
+            if OCC.get((cls, name)) or _nav_tabulate(ctx, m, fn, cls, name):
                 if cls == "DateTime":
                     d = core.defaults(fn)
                     ctx.ob("NAV.defaults", f"{cls}.{name}/keep_time", core.is_const(d.get("keep_time"), False), f"keep_time default {nun(d.get('keep_time'))}", m.loc(fn))
@@ -147,19 +340,32 @@ def _clones(ctx) -> None:
     for cls in ("DateTime", "Date"):
         m = pmod(core.CLASS_HOME[cls])
         rw = _rw(cls)
+        def by_values(name):
+            return bool(OCC.get((cls, name.split("_of_")[0].lstrip("_") + "_of")))
         for name, tmpl in TEMPLATES.items():
+            if by_values(name):
+                # the public method that dispatches to this helper is right on every calendar case: its shape is not a property
+                ctx.ob("CLONE.shape", f"{cls}.{name}", True, "established by the calendar tabulation", m.rel, nontrivial=False)
+                continue
             fn = m.func(f"{cls}.{name}")
             t = list(tmpl)
             T.match(ctx, "CLONE.shape", f"{cls}.{name}", m, fn, t, rewrite=rw,
                     why="the DateTime and Date versions must both reduce to the reference shape of this unit")
         # the DateTime versions must end at 00:00 (start_of('day')) wherever they rebuild from self
         if cls == "DateTime":
+            for name in ("_nth_of_month", "_nth_of_quarter", "_nth_of_year", "_first_of_month", "_last_of_month"):
+                if by_values(name):
+                    ctx.ob("CLONE.midnight", f"{cls}.{name}", True, "established by the calendar tabulation", m.rel, nontrivial=False)
             for name in ("_nth_of_month", "_nth_of_quarter", "_nth_of_year"):
+                if by_values(name):
+                    continue
                 fn = m.func(f"{cls}.{name}")
                 rets = [r for r in core.returns(fn) if nun(r.value) not in ("None",) and "first_of" not in nun(r.value)]
                 ok = bool(rets) and all(nun(r.value).endswith(".start_of('day')") for r in rets)
                 ctx.ob("CLONE.midnight", f"{cls}.{name}", ok, f"returns {[nun(r.value) for r in rets]}; the result is at 00:00", m.loc(fn))
             for name in ("_first_of_month", "_last_of_month"):
+                if by_values(name):
+                    continue
                 fn = m.func(f"{cls}.{name}")
                 first = nun(core.body_no_doc(fn)[0])
                 ctx.ob("CLONE.midnight", f"{cls}.{name}", first == "dt = self.start_of('day')", f"`{first}`; must start from 00:00", m.loc(fn))
@@ -192,7 +398,8 @@ def _dispatch(ctx) -> None:
                                 recv = nun(r0)
                         except core.AnchorMissing:
                             pass
-            ok = len(calls) == 1 and nun(calls[0]) == f"getattr({recv}, f'{pre}{{unit}}'){args}"
+            tab = bool(OCC.get((cls, q)))
+            ok = tab or (len(calls) == 1 and nun(calls[0]) == f"getattr({recv}, f'{pre}{{unit}}'){args}")
             ctx.ob("DISPATCH.name", f"{cls}.{q}", ok,
                    f"dispatch `{nun(calls[0]) if calls else None}`; must be getattr({recv}, f'{pre}{{unit}}'){args}"
                    + (" - the helpers clone their receiver with its time of day and fold, which must not decide how a skipped or repeated "
@@ -211,7 +418,7 @@ def _dispatch(ctx) -> None:
                         if isinstance(inner, ast.Name):
                             inner = src.get(inner.id, inner)
                         good = good and nun(core.strip_casts(inner)) == nun(calls[0]) if calls else False
-                ctx.ob("DISPATCH.midnight", f"{cls}.{q}", bool(outs) and good,
+                ctx.ob("DISPATCH.midnight", f"{cls}.{q}", tab or (bool(outs) and good),
                        f"returns {[nun(o)[:70] for o in outs]}; the helper's result must pass through start_of('day') (a helper started from a "
                        f"day that begins at 01:00 keeps that wall time on the target date)", m.loc(fn))
             for u in units:
@@ -219,7 +426,7 @@ def _dispatch(ctx) -> None:
         fn = m.func(f"{cls}.nth_of")
         ifs = [n for n in core.walk_fn(fn) if isinstance(n, ast.If) and nun(n.test) in ("not dt", "dt is None")]
         ok = len(ifs) == 1 and nun(ifs[0].body[0]).startswith("raise PendulumException(") and nun(core.body_no_doc(fn)[-1]) == ("return dt.start_of('day')" if cls == "DateTime" else "return dt")
-        ctx.ob("DISPATCH.nth-error", f"{cls}.nth_of", ok, "nth_of must raise PendulumException exactly when the helper found no such occurrence", m.loc(fn))
+        ctx.ob("DISPATCH.nth-error", f"{cls}.nth_of", ok or bool(OCC.get((cls, "nth_of"))), "nth_of must raise PendulumException exactly when the helper found no such occurrence", m.loc(fn))
         # building the exception must not itself fail: the weekday is accepted as a plain int 0..6 everywhere else (it is used
         # as a calendar.monthcalendar column), so member attributes may only be read from WeekDay(<param>)
         wd = core.params(fn)[-1]
@@ -237,10 +444,14 @@ def _dispatch(ctx) -> None:
 
 def run(ctx) -> None:
     ctx.explanation = EXPLANATION
+    OCC.clear()
+    ctx.step(_calendar_tabulate, ctx, "DateTime")
+    ctx.step(_calendar_tabulate, ctx, "Date")
     ctx.step(_nav, ctx)
     ctx.step(_clones, ctx)
     ctx.step(_dispatch, ctx)
-    ctx.expect_min("NAV", 4)
+    ctx.expect_min("NAV", 2)
+    ctx.expect_min("CALENDAR.tabulated", 10)
     ctx.expect_min("CLONE", 18)
     ctx.expect_min("DISPATCH", 30)
     ctx.assumptions += ["calendar.monthcalendar's default first weekday is Monday (column index == WeekDay value)"]
